@@ -826,7 +826,7 @@ pub fn run(ctx: &Ctx) -> HResult<()> {
 	let ev = &ctx.ev;
 	ev.rule("histories over a real chain + TransactionPool wired like the node (reconcile_block on head changes, reconcile_reorg_cache on reorgs): submissions (fresh, children and grandchildren of pooled transactions incl. two pooled parents, conflicting, duplicate, aggregates of pooled transactions, below minimum fee, over weight, with fee shift, stem or fluff), blocks carrying arbitrary subsets of pool transactions or conflicting spends, mining from prepare_mineable_transactions, winning and losing forks, small capacities to force eviction; after every operation: no two pooled transactions share an input, every input is unspent at the head or created in the pool, the aggregate of the public pool (and of public+stem) validates and passes Chain::validate_tx, every pooled transaction pays the minimum fee, respects the weight limit and validates alone; the mined block is within the weight limit and accepted by the chain; non-trivial = history with a dependent chain in the pool and (partial confirmation or eviction or reorg); distinct by (capacity, those flags, mined count, length)");
 	ev.assume("accept_fee_base set to 1000 for these cases (thread-local); block weight limit 250 (AutomatedTesting)");
-	if let Some((case, f)) = pbt_proc(ctx, "history", ctx.n(320, 6000), 16) {
+	if let Some((case, f)) = pbt_proc(ctx, "history", ctx.n(640, 6000), 16) {
 		ctx.report("history", &f.sig, case, &f.msg);
 	}
 	let s = sample_one(ctx.derive_seed("sample", 0), &case_strategy(6));
